@@ -245,7 +245,14 @@ func raceUfs(ctx *core.Ctx, n int, logging bool, rep int) core.Result {
 
 // ---- a file server implementation without any state of its own
 
-type nullfs struct{ go9p.Srv }
+type nullfs struct {
+	go9p.Srv
+	// cancel: the usual FlushOp pattern — Flush cancels a read that is blocked in the implementation with req.Flush()
+	// and wakes its worker, which then gives its (dropped) late answer while the connection goes on serving
+	cancel  bool
+	mu      sync.Mutex
+	waiting map[*go9p.SrvReq]chan struct{}
+}
 
 func qid(p uint64, t uint8) *go9p.Qid { return &go9p.Qid{Type: t, Version: 1, Path: p} }
 
@@ -263,9 +270,27 @@ func (*nullfs) Walk(r *go9p.SrvReq) {
 }
 func (*nullfs) Open(r *go9p.SrvReq)   { r.RespondRopen(qid(2, r.Fid.Type), 0) }
 func (*nullfs) Create(r *go9p.SrvReq) { r.RespondRcreate(qid(3, 0), 0) }
-func (*nullfs) Read(r *go9p.SrvReq) {
-	time.Sleep(time.Duration(r.Tc.Count%5) * 20 * time.Microsecond)
-	r.RespondRread(make([]byte, r.Tc.Count))
+func (fs *nullfs) Read(r *go9p.SrvReq) {
+	count := r.Tc.Count
+	if fs.cancel && count%2 == 1 {
+		ch := make(chan struct{})
+		fs.mu.Lock()
+		fs.waiting[r] = ch
+		fs.mu.Unlock()
+		select {
+		case <-ch:
+			time.Sleep(time.Duration(count%4) * 30 * time.Microsecond)
+			r.RespondError(&go9p.Error{Err: "interrupted", Errornum: 4})
+		case <-time.After(3 * time.Millisecond):
+			fs.mu.Lock()
+			delete(fs.waiting, r)
+			fs.mu.Unlock()
+			r.RespondRread(make([]byte, count))
+		}
+		return
+	}
+	time.Sleep(time.Duration(count%5) * 20 * time.Microsecond)
+	r.RespondRread(make([]byte, count))
 }
 func (*nullfs) Write(r *go9p.SrvReq)  { r.RespondRwrite(uint32(len(r.Tc.Data))) }
 func (*nullfs) Clunk(r *go9p.SrvReq)  { r.RespondRclunk() }
@@ -274,7 +299,19 @@ func (*nullfs) Stat(r *go9p.SrvReq) {
 	r.RespondRstat(&go9p.Dir{Name: "x", Uid: "u", Gid: "g", Muid: "m"})
 }
 func (*nullfs) Wstat(r *go9p.SrvReq)      { r.RespondRwstat() }
-func (*nullfs) Flush(r *go9p.SrvReq)      {}
+func (fs *nullfs) Flush(r *go9p.SrvReq) {
+	if !fs.cancel {
+		return
+	}
+	fs.mu.Lock()
+	ch := fs.waiting[r]
+	delete(fs.waiting, r)
+	fs.mu.Unlock()
+	if ch != nil {
+		r.Flush()
+		close(ch)
+	}
+}
 func (*nullfs) ConnOpened(c *go9p.Conn)   {}
 func (*nullfs) ConnClosed(c *go9p.Conn)   {}
 func (*nullfs) FidDestroy(f *go9p.SrvFid) {}
@@ -284,6 +321,8 @@ func raceRaw(ctx *core.Ctx, n, rep int) core.Result {
 	var res core.Result
 	go9p.VerifSetHook(perturb)
 	fs := new(nullfs)
+	fs.cancel = rep%2 == 0
+	fs.waiting = map[*go9p.SrvReq]chan struct{}{}
 	fs.Dotu = rep%2 == 1
 	fs.Id = "nullfs"
 	fs.Maxpend = []int{0, 4}[rep%2]
@@ -440,7 +479,7 @@ func raceRaw(ctx *core.Ctx, n, rep int) core.Result {
 	}
 	wg.Wait()
 	res.Evals = n * 15
-	res.Sig(fmt.Sprintf("raw|n=%d|rep=%d|dotu=%v|maxpend=%d", n, rep, fs.Dotu, fs.Maxpend))
+	res.Sig(fmt.Sprintf("raw|n=%d|rep=%d|dotu=%v|maxpend=%d|cancelling-flushop=%v", n, rep, fs.Dotu, fs.Maxpend, fs.cancel))
 	res.Count("raw_connections", int64(n))
 	if rep == 0 {
 		res.Sample(map[string]interface{}{"workload": "raw pipelined requests with flushes", "connections": n, "rounds": 15})
